@@ -286,8 +286,9 @@ pub enum FrameShape {
 
 pub struct SizeClass;
 impl SizeClass {
-    pub fn draw(rng: &mut Rng, big_ok: bool) -> usize {
-        match rng.weighted(&[50, 35, 12, if big_ok { 3 } else { 0 }]) {
+    /// `big_permille`: share (in 1/1000) of frames of 60..70 KiB (crossing the 64 KiB mark)
+    pub fn draw(rng: &mut Rng, big_permille: u32) -> usize {
+        match rng.weighted(&[500, 350, 150 - big_permille.min(150), big_permille.min(150)]) {
             0 => rng.range(1, 16) as usize,
             1 => rng.range(17, 300) as usize,
             2 => rng.range(301, 3000) as usize,
@@ -897,7 +898,7 @@ mod tests {
         for i in 0..20000u64 {
             let hevc = rng.bool();
             let shape = *rng.pick(&[FrameShape::KeyWithConfig, FrameShape::KeyNoConfig, FrameShape::ConfigNoKey, FrameShape::Delta]);
-            let n = SizeClass::draw(&mut rng, false);
+            let n = SizeClass::draw(&mut rng, 0);
             let f = build_h26x(&mut rng, hevc, shape, i, n, true);
             assert_eq!(expected_length_prefixed(&f.data), f.stored, "case {i}");
         }
